@@ -37,11 +37,11 @@ type c19Case struct {
 	Name2 string `json:"name_given_first,omitempty"`
 	// FullDisk: the output goes to /dev/full (every write fails with ENOSPC): the tool cannot emit the container
 	// and must say so with a non-zero exit status
-	FullDisk  bool `json:"output_device_full,omitempty"`
+	FullDisk bool `json:"output_device_full,omitempty"`
 	// TmpDir: the tool runs with TMPDIR pointing at this directory (another file system than the output's)
 	TmpDir string `json:"tmpdir,omitempty"`
 	// GoRun: the tool is started the way its Makefile does it: `go run <tool>.go ...` in the tool's directory
-	GoRun bool `json:"go_run_single_file,omitempty"`
+	GoRun     bool `json:"go_run_single_file,omitempty"`
 	OutExists bool `json:"output_exists_longer,omitempty"`
 	InPlace   int  `json:"in_place,omitempty"`
 }
